@@ -164,6 +164,7 @@ type cluWorld struct {
 	jobInc  int
 	workers map[string]*simWorker
 	nWorker int
+	pendingRestarts int // restarts of killed workers that run beside the fault plan (overlapping failures)
 
 	src *simSource
 	h   *cluModel
@@ -391,6 +392,7 @@ func (o *cluOpClient) Deploy(ctx context.Context, req *workerpb.DeployOperatorRe
 			return errTransport
 		}
 		o.w.h.onDeploy(o.node.Id, req)
+		o.w.disk.ReleaseStalls() // a slow snapshot publication lands while the next deployment is under way
 		return wk.op.HandleDeploy(ctx, req, recSink{})
 	})
 }
